@@ -32,6 +32,17 @@ Theorem C18_normfactor_recovered_R : forall ws x file ws',
     Forall (fun m' => exists q, In q (me_params RNum m') /\ p_name RNum q = m_name RNum mo /\ p_inits RNum q = Some [v]
                                 /\ p_bounds RNum q = Some [(l, h)]) (w_meas RNum ws').
 Proof. exact normfactor_recovered_R. Qed.
+(* Val/Low/High of a NormFactor element: from the first measurement's parameter config, 1 / 0 / 10 when it has none *)
+Theorem C18_normfactor_settings_default_R : forall ws m0 ms n, w_meas RNum ws = m0 :: ms ->
+  Forall (fun p => String.eqb (p_name RNum p) n = false) (me_params RNum m0) ->
+  nf_settings RNum ws n = inl (1%R, 0%R, 10%R).
+Proof. exact (nf_settings_default RNum). Qed.
+Theorem C18_normfactor_settings_custom_R : forall ws m0 ms n pre p post v vs l h bs,
+  w_meas RNum ws = m0 :: ms -> me_params RNum m0 = pre ++ p :: post ->
+  Forall (fun q => String.eqb (p_name RNum q) n = false) pre -> Forall (fun q => String.eqb (p_name RNum q) n = false) post ->
+  p_name RNum p = n -> p_inits RNum p = Some (v :: vs) -> p_bounds RNum p = Some ((l, h) :: bs) ->
+  nf_settings RNum ws n = inl (v, l, h).
+Proof. exact (nf_settings_custom RNum). Qed.
 Theorem C18_roundtrip_likelihood_partial_R : forall ws x file,
   write RNum ws = inl (x, file) -> w_obs RNum ws <> [] -> stat_ok RNum ws -> names_ok RNum ws -> canonical_ws RNum ws ->
   exists ws', read RNum x file = inl ws' /\ w_channels RNum ws' = w_channels RNum ws /\
@@ -75,6 +86,8 @@ Print Assumptions C18_roundtrip_model_Qc.
 Print Assumptions C18_roundtrip_model_R.
 Print Assumptions C18_modifier_data_survive_R.
 Print Assumptions C18_normfactor_recovered_R.
+Print Assumptions C18_normfactor_settings_default_R.
+Print Assumptions C18_normfactor_settings_custom_R.
 Print Assumptions C18_roundtrip_likelihood_partial_R.
 Print Assumptions C18_roundtrip_nonvacuous.
 Print Assumptions C18_name_guard.
